@@ -183,7 +183,7 @@ class Ctx(object):
         os.makedirs(d, exist_ok=True)
         p = os.path.join(d, "tlc_%s.log" % tag)
         with open(p, "w") as f:
-            f.write(text[-200000:])
+            f.write("\n".join(l for l in text.splitlines() if not l.startswith('"'))[-200000:])
         return p
 
     def apalache(self, module, inv, init="Init", next_="Next", length=0, timeout=600, expect_ok=True):
